@@ -75,6 +75,33 @@ Ltac cmp x t := destruct (Nat.eq_dec x t) as [?E|?N]; [subst; rewrite ?upd_same 
 Lemma cnt_cons : forall l t x, cnt (x :: l) t = (if Nat.eq_dec x t then 1 else 0) + cnt l t.
 Proof. intros. unfold cnt. simpl. destruct (Nat.eq_dec x t); reflexivity. Qed.
 
+Lemma nodup_fst_fun : forall (l : list (tid * obj)) t o o', NoDup (map fst l) -> In (t, o) l -> In (t, o') l -> o = o'.
+Proof.
+  induction l as [|[a b] l IH]; simpl; intros t o o' ND H1 H2; [tauto|].
+  inversion ND; subst.
+  destruct H1 as [H1|H1]; destruct H2 as [H2|H2]; try congruence.
+  - inversion H1; subst. exfalso. apply H3. eapply in_map_fst; eauto.
+  - inversion H2; subst. exfalso. apply H3. eapply in_map_fst; eauto.
+  - eauto.
+Qed.
+Lemma nodup_snd_fun : forall (l : list (tid * obj)) t t' o, NoDup (map snd l) -> In (t, o) l -> In (t', o) l -> t = t'.
+Proof.
+  induction l as [|[a b] l IH]; simpl; intros t t' o ND H1 H2; [tauto|].
+  inversion ND; subst.
+  destruct H1 as [H1|H1]; destruct H2 as [H2|H2]; try congruence.
+  - inversion H1; subst. exfalso. apply H3. eapply in_map_snd; eauto.
+  - inversion H2; subst. exfalso. apply H3. eapply in_map_snd; eauto.
+  - eauto.
+Qed.
+Lemma NoDup_snoc : forall A (l : list A) x, NoDup l -> ~ In x l -> NoDup (l ++ [x]).
+Proof.
+  induction l; simpl; intros x ND H.
+  - constructor; [tauto|constructor].
+  - inversion ND; subst. constructor.
+    + rewrite in_app_iff. simpl. intuition.
+    + apply IHl; tauto.
+Qed.
+
 Inductive Mark (o : nat) : Prop := mk_mark.
 Ltac sat I t :=
   pose proof (i_pc_setup _ I t) as L3; pose proof (i_calls _ I t) as L8;
@@ -83,10 +110,12 @@ Ltac sat I t :=
       lazymatch goal with _ : Mark o |- _ => fail | _ => idtac end;
       pose proof (mk_mark o);
       pose proof (i_local _ I t o); pose proof (i_owner _ I t o); pose proof (i_pc_store _ I t o);
-      pose proof (i_pc_app _ I t o); pose proof (i_objs1 _ I t o); pose proof (i_objs2 _ I t o)
+      pose proof (i_pc_app _ I t o); pose proof (i_objs1 _ I t o); pose proof (i_objs2 _ I t o);
+      pose proof (i_acc _ I t o)
   end.
 
 Ltac close I t Hpc :=
+  try match goal with H : (_, _) = (_, _) \/ _ |- _ => destruct H as [H|H]; [inversion H; subst; clear H|] end;
   sat I t; unfold in_flight in *; rewrite ?Hpc in *;
   try solve [intuition (try congruence; try discriminate; eauto)].
 
@@ -100,6 +129,17 @@ Ltac byI I :=
         | eapply (i_pc_setup _ I); eauto | eapply (i_pc_store _ I); eauto | eapply (i_pc_app _ I); eauto
         | eapply (i_objs1 _ I); eauto | eapply (i_objs2 _ I); eauto | eapply (i_objs_created _ I); eauto
         | eapply (i_acc _ I); eauto | eapply (i_calls _ I); eauto ].
+
+Ltac fin I :=
+  try match goal with H : (_, _) = (_, _) \/ _ |- _ => destruct H as [H|H]; [inversion H; subst; clear H|] end;
+  try lia; try congruence;
+  try solve [match goal with H : In _ (created _) |- _ => apply (i_lt _ I) in H; lia end];
+  try solve [constructor; [assumption|apply I]];
+  try solve [right; byI I];
+  try solve [match goal with H : pcs _ _ = AtStore _ |- _ => destruct (i_pc_store _ I _ _ H); auto end];
+  try solve [match goal with H : In _ (objects _) |- _ =>
+               let t' := fresh "t'" in let Ht' := fresh "Ht'" in
+               destruct (i_objs_created _ I _ H) as [t' Ht']; exists t'; auto end].
 
 Ltac pcsplit I t Hpc :=
   intros x; intros; cmp x t; [close I t Hpc; try cntgoal I t | try byI I; try cntgoal I x;
@@ -126,15 +166,197 @@ Proof.
       assert (Hfresh_obj : ~ In (next s) (objects s)).
       { intro Hin. destruct (i_objs_created _ I _ Hin) as [t' Hc]. apply (i_lt _ I) in Hc. lia. }
       constructor; simpl; unfold in_flight; simpl; try apply I; try pcsplit I t Hpc.
-      * destruct H as [H|H]; [inversion H; lia|]. apply (i_lt _ I) in H. lia.
-      * destruct H as [H|H]; [inversion H; lia|]. apply (i_lt _ I) in H. lia.
-      * constructor; [assumption|apply I].
-      * constructor; [assumption|apply I].
-      * right. byI I.
-      * destruct (i_pc_store _ I _ _ H). auto.
-      * destruct (i_objs_created _ I _ H) as [t' Ht']. exists t'. auto.
-      * right. byI I.
+      all: fin I.
   - constructor; simpl; unfold in_flight; simpl; try apply I; try pcsplit I t Hpc.
   - assert (Hnew : ~ In o (objects s)).
     { intro Hin. apply (i_objs2 _ I t o Hin). right. assumption. }
+    assert (Hloc : locals s t = Some o) by (apply (i_pc_app _ I); auto).
+    assert (Hcr : In (t, o) (created s)) by (apply (i_local _ I); auto).
     constructor; simpl; unfold in_flight; simpl; try apply I; try pcsplit I t Hpc.
+    + right. rewrite in_app_iff. right. left. eapply nodup_fst_fun; [apply (i_nd_t _ I)| |]; eauto.
+    + rewrite in_app_iff. destruct (i_objs1 _ I _ _ H) as [Hf|Hf]; [left; exact Hf|auto].
+    + rewrite in_app_iff in H. destruct H as [H|[H|[]]]; [byI I|]. subst o0.
+      intros [Hp|Hp].
+      * apply (i_pc_store _ I) in Hp. destruct Hp as [_ Hp]. apply N. eapply nodup_snd_fun; [apply (i_nd_o _ I)| |]; eauto.
+      * assert (Hl : locals s x = Some o) by (apply (i_pc_app _ I); auto).
+        apply (i_local _ I) in Hl. apply N. eapply nodup_snd_fun; [apply (i_nd_o _ I)| |]; eauto.
+    + rewrite in_app_iff in H. destruct H as [H|[H|[]]]; [byI I|]. subst. eauto.
+    + rewrite in_app_iff in H. destruct H as [H|[H|[]]]; [byI I|]. subst. eauto.
+    + apply NoDup_snoc; [apply I|assumption].
+    + pose proof (i_td _ I) as Htd. destruct (td s) as [|i|i o'| |]; auto.
+      * destruct Htd as [E L]. rewrite app_length, firstn_snoc_keep by assumption. split; [assumption|simpl; lia].
+      * destruct Htd as [E L]. pose proof (nth_error_lt _ _ _ _ L). rewrite firstn_snoc_keep by lia.
+        split; [assumption|]. rewrite nth_error_app1 by assumption. assumption.
+      * destruct Htd as [i [E L]]. exists i. rewrite app_length, firstn_snoc_keep by assumption. split; [assumption|simpl; lia].
+      * destruct Htd as [i [E L]]. exists i. rewrite app_length, firstn_snoc_keep by assumption. split; [assumption|simpl; lia].
+  - constructor; simpl; unfold in_flight; simpl; try apply I; try pcsplit I t Hpc.
+Qed.
+
+Lemma step_main_inv : forall c s, Inv s -> Inv (step_main c s).
+Proof.
+  intros c s I. unfold step_main. pose proof (i_td _ I) as Htd.
+  destruct (td s) as [|i|i o| |] eqn:Htds; try assumption.
+  - constructor; simpl; try apply I. rewrite Htd. simpl. split; [reflexivity|lia].
+  - destruct Htd as [E L]. destruct (nth_error (objects s) i) as [o|] eqn:Hn.
+    + constructor; simpl; try apply I. auto.
+    + constructor; simpl; try apply I. exists i. auto.
+  - destruct Htd as [E L].
+    assert (E' : torn s ++ [o] = firstn (S i) (objects s)) by (rewrite E; symmetry; apply firstn_S_nth; assumption).
+    pose proof (nth_error_lt _ _ _ _ L).
+    constructor; simpl; try apply I.
+    destruct (td_fails c o); [exists (S i)|]; split; auto.
+Qed.
+
+Lemma step_inv : forall c s a, Inv s -> Inv (step c s a).
+Proof. intros c s [t|]; simpl; [apply step_thread_inv|apply step_main_inv]. Qed.
+
+Lemma run_from_inv : forall c sch s, Inv s -> Inv (run_from c s sch).
+Proof. unfold run_from. induction sch; simpl; intros; [assumption|]. apply IHsch. apply step_inv. assumption. Qed.
+
+Lemma run_inv : forall c sch, Inv (run c sch).
+Proof. intros. apply run_from_inv. apply inv_init. Qed.
+
+(* ------------------------------------------------------------------ consequences *)
+Lemma run_snoc : forall c sch a, run c (sch ++ [a]) = step c (run c sch) a.
+Proof. intros. unfold run, run_from. rewrite fold_left_app. reflexivity. Qed.
+Lemma run_app : forall c sch1 sch2, run c (sch1 ++ sch2) = run_from c (run c sch1) sch2.
+Proof. intros. unfold run, run_from. apply fold_left_app. Qed.
+
+Lemma insetup_not_created : forall s t, Inv s -> pcs s t = AtSetup \/ pcs s t = InSetup -> ~ In t (map fst (created s)).
+Proof.
+  intros s t I Hpc Hin. apply in_map_iff in Hin. destruct Hin as [[t' o'] [E Hin]]. simpl in E. subst t'.
+  destruct (i_owner _ I _ _ Hin) as [Hl|Hp]; [|destruct Hpc; congruence].
+  rewrite (i_pc_setup _ I t) in Hl; [discriminate|auto].
+Qed.
+
+Lemma at_most_one : forall c sch,
+  NoDup (map fst (created (run c sch))) /\
+  forall t, count_occ Nat.eq_dec (setup_calls (run c sch)) t <= 1 + count_occ Nat.eq_dec (failed (run c sch)) t.
+Proof.
+  intros c sch. pose proof (run_inv c sch) as I. split; [apply I|]. intro t.
+  pose proof (i_calls _ I t) as E. unfold cnt in E. rewrite E.
+  pose proof (proj1 (NoDup_count_occ Nat.eq_dec _) (i_nd_t _ I) t) as Hle.
+  destruct (pcs (run c sch) t) eqn:Hpc; try lia.
+  assert (Hz : count_occ Nat.eq_dec (map fst (created (run c sch))) t = 0).
+  { apply count_occ_not_In. apply insetup_not_created; auto. }
+  lia.
+Qed.
+
+Lemma owner_only : forall c sch t o,
+  In (t, Some o) (accesses (run c sch)) ->
+  In (t, o) (created (run c sch)) /\
+  (forall t', In (t', o) (created (run c sch)) -> t' = t) /\
+  (forall t', In (t', Some o) (accesses (run c sch)) -> t' = t) /\
+  (forall t', locals (run c sch) t' = Some o -> t' = t).
+Proof.
+  intros c sch t o H. pose proof (run_inv c sch) as I.
+  assert (Hc : In (t, o) (created (run c sch))) by (apply (i_acc _ I); assumption).
+  split; [assumption|]. split; [|split].
+  - intros t' H'. eapply nodup_snd_fun; [apply (i_nd_o _ I)| |]; eauto.
+  - intros t' H'. apply (i_acc _ I) in H'. eapply nodup_snd_fun; [apply (i_nd_o _ I)| |]; eauto.
+  - intros t' H'. apply (i_local _ I) in H'. eapply nodup_snd_fun; [apply (i_nd_o _ I)| |]; eauto.
+Qed.
+
+Lemma same_object : forall c sch t o o',
+  In (t, Some o) (accesses (run c sch)) -> In (t, Some o') (accesses (run c sch)) -> o = o'.
+Proof.
+  intros c sch t o o' H H'. pose proof (run_inv c sch) as I.
+  apply (i_acc _ I) in H. apply (i_acc _ I) in H'. eapply nodup_fst_fun; [apply (i_nd_t _ I)| |]; eauto.
+Qed.
+
+(* once a thread has its object, no step of anybody changes it or calls setup_object on that thread again,
+   and every get_object the thread completes from then on returns that object *)
+Definition new_accesses_return (t : tid) (o : obj) (before after : list (tid * option obj)) : Prop :=
+  exists new, after = new ++ before /\ forall r, In (t, r) new -> r = Some o.
+
+Lemma step_keeps_object : forall c s a t o, Inv s -> locals s t = Some o ->
+  locals (step c s a) t = Some o /\ cnt (setup_calls (step c s a)) t = cnt (setup_calls s) t /\
+  new_accesses_return t o (accesses s) (accesses (step c s a)).
+Proof.
+  intros c s a t o I Hl.
+  assert (Hsame : new_accesses_return t o (accesses s) (accesses s)) by (exists []; simpl; tauto).
+  assert (Hone : forall t' r, (t' = t -> r = Some o) -> new_accesses_return t o (accesses s) ((t', r) :: accesses s)).
+  { intros t' r Hr. exists [(t', r)]. split; [reflexivity|]. simpl. intros r' [E|[]]. inversion E; subst. auto. }
+  destruct a as [t'|]; simpl.
+  - unfold step_thread. destruct (Nat.eq_dec t' t) as [E|N].
+    + subst t'. destruct (pcs s t) eqn:Hpc; simpl; auto.
+      * rewrite Hl. simpl. auto.
+      * rewrite (i_pc_setup _ I t) in Hl by auto. discriminate.
+      * rewrite (i_pc_setup _ I t) in Hl by auto. discriminate.
+      * destruct (i_pc_store _ I _ _ Hpc) as [Hn _]. congruence.
+      * pose proof (i_pc_app _ I t o0 (or_intror Hpc)). split; [assumption|]. split; [reflexivity|]. apply Hone. congruence.
+    + assert (Hc : forall l, cnt (t' :: l) t = cnt l t).
+      { intro l. rewrite cnt_cons. destruct (Nat.eq_dec t' t); [contradiction|reflexivity]. }
+      destruct (pcs s t') eqn:Hpc; simpl;
+        try (destruct (locals s t'); simpl);
+        try (destruct (setup_fails c t' (count_occ Nat.eq_dec (failed s) t')); simpl);
+        try (destruct (Nat.eq_dec t' t) as [?|_]; [contradiction|]);
+        rewrite ?upd_other by auto;
+        (split; [assumption|]; split; [reflexivity|]); auto; apply Hone; intro; contradiction.
+  - unfold step_main. destruct (td s); simpl; auto. destruct (nth_error _ _); simpl; auto.
+Qed.
+
+Lemma run_keeps_object : forall c sch s t o, Inv s -> locals s t = Some o ->
+  locals (run_from c s sch) t = Some o /\ cnt (setup_calls (run_from c s sch)) t = cnt (setup_calls s) t /\
+  new_accesses_return t o (accesses s) (accesses (run_from c s sch)).
+Proof.
+  unfold run_from. induction sch as [|a sch IH]; simpl; intros s t o I Hl.
+  - split; [assumption|]. split; [reflexivity|]. exists []. simpl. tauto.
+  - destruct (step_keeps_object c s a t o I Hl) as [H1 [H2 [n1 [E1 H3]]]].
+    destruct (IH (step c s a) t o (step_inv _ _ _ I) H1) as [H4 [H5 [n2 [E2 H6]]]].
+    split; [assumption|]. split; [congruence|]. exists (n2 ++ n1). split.
+    + rewrite E2, E1. apply app_assoc.
+    + intros r Hr. apply in_app_iff in Hr. destruct Hr; auto.
+Qed.
+
+Lemma reused : forall c sch1 sch2 t o,
+  locals (run c sch1) t = Some o ->
+  locals (run c (sch1 ++ sch2)) t = Some o /\
+  count_occ Nat.eq_dec (setup_calls (run c (sch1 ++ sch2))) t = count_occ Nat.eq_dec (setup_calls (run c sch1)) t /\
+  new_accesses_return t o (accesses (run c sch1)) (accesses (run c (sch1 ++ sch2))).
+Proof.
+  intros. rewrite run_app. apply run_keeps_object; [apply run_inv|assumption].
+Qed.
+
+Lemma never_twice : forall c sch,
+  NoDup (torn (run c sch)) /\ forall o, In o (torn (run c sch)) -> exists t, In (t, o) (created (run c sch)).
+Proof.
+  intros c sch. pose proof (run_inv c sch) as I. pose proof (i_td _ I) as Htd.
+  assert (H : exists i, torn (run c sch) = firstn i (objects (run c sch))).
+  { destruct (td (run c sch)) as [|i|i o| |].
+    - exists 0. rewrite Htd. reflexivity.
+    - destruct Htd as [E _]; eauto.
+    - destruct Htd as [E _]; eauto.
+    - destruct Htd as [i [E _]]; eauto.
+    - destruct Htd as [i [E _]]; eauto. }
+  destruct H as [i E]. rewrite E. split.
+  - apply NoDup_firstn. apply I.
+  - intros o Ho. apply In_firstn in Ho. apply (i_objs_created _ I). assumption.
+Qed.
+
+Lemma teardown_complete : forall c sch, teardown_returns_after c sch ->
+  torn (run c (sch ++ [Main])) = objects (run c (sch ++ [Main])) /\
+  forall t o, In (t, o) (created (run c (sch ++ [Main]))) ->
+              In o (torn (run c (sch ++ [Main]))) \/ in_flight (run c (sch ++ [Main])) t o.
+Proof.
+  intros c sch [Hnot Hdone].
+  assert (Ht : torn (run c (sch ++ [Main])) = objects (run c (sch ++ [Main]))).
+  { rewrite run_snoc in *. simpl in *. pose proof (run_inv c sch) as I. pose proof (i_td _ I) as Htd.
+    unfold step_main in *. destruct (td (run c sch)) as [|i|i o| |] eqn:Htds; simpl in *; try discriminate; try congruence.
+    - destruct (nth_error (objects (run c sch)) i) eqn:Hn; simpl in *; try discriminate.
+      destruct Htd as [E L]. apply nth_error_None in Hn. rewrite E. apply firstn_all2. assumption.
+    - destruct (td_fails c o); discriminate. }
+  split; [assumption|]. intros t o Hc. rewrite Ht.
+  destruct (i_objs1 _ (run_inv c (sch ++ [Main])) _ _ Hc); auto.
+Qed.
+
+Lemma teardown_exact : forall c sch, teardown_returns_after c sch ->
+  (forall t o, ~ in_flight (run c (sch ++ [Main])) t o) ->
+  NoDup (torn (run c (sch ++ [Main]))) /\
+  forall o, In o (torn (run c (sch ++ [Main]))) <-> exists t, In (t, o) (created (run c (sch ++ [Main]))).
+Proof.
+  intros c sch Hr Hq. destruct (never_twice c (sch ++ [Main])) as [ND Hsub].
+  destruct (teardown_complete c sch Hr) as [_ Hall].
+  split; [assumption|]. intro o. split; [apply Hsub|].
+  intros [t Hc]. destruct (Hall _ _ Hc) as [H|H]; [assumption|]. exfalso. eapply Hq; eauto.
+Qed.
